@@ -31,6 +31,9 @@ struct ScopeVar {
     kind: Kind,
     /// can a model: binding be rooted here (item of a data-path list)?
     assignable: bool,
+    /// item of a list that certainly has no data path (a literal list, a script module's list, a
+    /// list hanging off such an item): a model: binding rooted here must come without a path
+    no_path: bool,
 }
 
 #[derive(Clone, Debug)]
@@ -46,6 +49,7 @@ struct Features {
     dyn_slots: bool,
     root_slots: bool,
     dup_keys: bool,
+    script_lists: bool,
     model: bool,
     events: bool,
     type_flip: bool,
@@ -338,6 +342,16 @@ impl<'a> Ctx<'a> {
                 _ => {}
             }
         }
+        let frozen: Vec<Expr> = self
+            .scope
+            .iter()
+            .filter(|sv| sv.no_path && matches!(sv.kind, Kind::Record | Kind::SubRecord))
+            .map(|sv| member(id(&sv.name), "v"))
+            .collect();
+        if !frozen.is_empty() && self.r.chance(0.4) {
+            // an item of a list without a data path (a literal list, a script module's list)
+            return (self.r.pick(&frozen).clone(), false);
+        }
         if assignable.is_empty() || self.r.chance(0.15) {
             // not assignable: arithmetic, literal, call, loop index
             let mut e = match self.r.below(4) {
@@ -450,8 +464,22 @@ impl<'a> Ctx<'a> {
                             }
                         }
                         2 if !self.in_template => AttrVal::Bind(id("s")),
+                        3 if self.f.script_lists && self.scope.iter().any(|sv| sv.no_path && sv.kind == Kind::Record) => {
+                            // a handler stored in an item of a script module's list
+                            let sv = self.scope.iter().rev().find(|sv| sv.no_path && sv.kind == Kind::Record).unwrap().name.clone();
+                            AttrVal::Bind(member(id(&sv), "h"))
+                        }
                         _ => AttrVal::Static("h1".into()),
                     };
+                    if self.r.chance(0.3) {
+                        // a second binding of another kind on the same event: the order counts
+                        let p2 = *self.r.pick(&["bind:", "catch:", "mut-bind:", "capture-bind:", "capture-catch:"]);
+                        let n2 = format!("{}{}", p2, ev);
+                        if n2 != format!("{}{}", prefix, ev) && !used.contains(&n2) {
+                            used.push(n2.clone());
+                            attrs.push(Attr { name: n2, val: AttrVal::Static((*self.r.pick(&["h2", "h1"])).to_string()) });
+                        }
+                    }
                     (format!("{}{}", prefix, ev), val)
                 }
                 8 => (format!("attr-{}", self.r.pick(&["a", "b"])), self.attr_val()),
@@ -497,6 +525,12 @@ impl<'a> Ctx<'a> {
             }
             if self.f.index_reads {
                 pool.push((member(index(id("list"), id("n")), "sub"), Kind::SubRecord, true, Some("k")));
+            }
+            if self.f.script_lists && !self.modules.is_empty() {
+                // a list that lives in a script module: items have a script path, never a data path
+                let m = self.r.pick(&self.modules).clone();
+                pool.push((member(id(&m), "rows"), Kind::Record, false, Some("k")));
+                pool.push((member(id(&m), "rows"), Kind::Record, false, Some("k")));
             }
         }
         if self.f.nested_for {
@@ -576,6 +610,18 @@ impl<'a> Ctx<'a> {
                     0 => None,
                     _ => keyf.map(String::from),
                 };
+                let no_path = {
+                    // the root of the member chain decides
+                    let mut root = &list;
+                    while let Expr::Member(b, _) = root {
+                        root = b;
+                    }
+                    match root {
+                        Expr::Arr(_) => true,
+                        Expr::Id(n) => self.modules.iter().any(|m| m == n) || self.scope.iter().any(|sv| &sv.name == n && sv.no_path),
+                        _ => false,
+                    }
+                };
                 let nested = self.scope.iter().any(|s| s.name == "item");
                 let rename = nested || self.r.chance(0.2);
                 let (item, idx) = if rename {
@@ -584,8 +630,8 @@ impl<'a> Ctx<'a> {
                 } else {
                     ("item".to_string(), "index".to_string())
                 };
-                self.scope.push(ScopeVar { name: item.clone(), kind, assignable });
-                self.scope.push(ScopeVar { name: idx.clone(), kind: Kind::Index, assignable: false });
+                self.scope.push(ScopeVar { name: item.clone(), kind, assignable, no_path });
+                self.scope.push(ScopeVar { name: idx.clone(), kind: Kind::Index, assignable: false, no_path: false });
                 let children = self.nodes(depth + 1);
                 self.scope.pop();
                 self.scope.pop();
@@ -672,7 +718,7 @@ impl<'a> Ctx<'a> {
     fn comp(&mut self, depth: usize) -> Node {
         let mut kinds = vec!["plain", "plain", "multi", "mchild"];
         if self.f.dyn_slots {
-            kinds.extend(["dyn", "dyn", "dynnk", "dynt"]);
+            kinds.extend(["dyn", "dyn", "dynnk", "dynt", "dynn"]);
         }
         let kind = *self.r.pick(&kinds);
         if !self.used_comps.iter().any(|c| c == kind) {
@@ -724,7 +770,9 @@ impl<'a> Ctx<'a> {
                     if slot != AttrVal::None {
                         a.push(Attr { name: "slot".into(), val: slot });
                     }
-                    children.push(Node::El { tag: "view".into(), attrs: a, children: vec![Node::Text(self.text_parts())] });
+                    // sometimes the slotted content is a virtual node
+                    let tag = if self.r.chance(0.3) { "block" } else { "view" };
+                    children.push(Node::El { tag: tag.into(), attrs: a, children: vec![Node::Text(self.text_parts())] });
                 }
                 Node::El { tag: "multi".into(), attrs, children }
             }
@@ -733,12 +781,41 @@ impl<'a> Ctx<'a> {
                 attrs.push(Attr { name: if ok { "model:val".into() } else { "model:nval".into() }, val: AttrVal::Bind(e) });
                 Node::El { tag: "mchild".into(), attrs, children: vec![] }
             }
+            "dynn" => {
+                // dynamic-slots child with named slots: the `slot` attribute of host content
+                // selects the slot instance the content belongs to
+                attrs.push(Attr { name: "p".into(), val: AttrVal::Bind(self.top_expr()) });
+                let mut children = vec![];
+                let n = self.r.range(1, 3);
+                for _ in 0..n {
+                    let slot = match self.r.below(5) {
+                        0 => AttrVal::Static("a".into()),
+                        1 => AttrVal::Static("b".into()),
+                        2 | 3 => AttrVal::Bind(if self.r.chance(0.7) { id("s") } else { Expr::Cond(Box::new(id("flag")), Box::new(Expr::Str("a".into())), Box::new(Expr::Str("b".into()))) }),
+                        _ => AttrVal::None,
+                    };
+                    let mut a = vec![];
+                    if slot != AttrVal::None {
+                        a.push(Attr { name: "slot".into(), val: slot });
+                    }
+                    if self.r.chance(0.4) {
+                        a.push(Attr { name: "slot:sv".into(), val: AttrVal::None });
+                        self.scope.push(ScopeVar { name: "sv".into(), kind: Kind::Any, assignable: false, no_path: false });
+                        let inner = vec![Node::Text(self.text_parts())];
+                        self.scope.pop();
+                        children.push(Node::El { tag: "view".into(), attrs: a, children: inner });
+                    } else {
+                        children.push(Node::El { tag: "view".into(), attrs: a, children: vec![Node::Text(self.text_parts())] });
+                    }
+                }
+                Node::El { tag: "dynn".into(), attrs, children }
+            }
             "dynt" => {
                 // dynamic-slots child whose slot sits in a sub-template fed with spread data
                 let o = self.object_leaf();
                 attrs.push(Attr { name: "p".into(), val: AttrVal::Bind(o) });
-                self.scope.push(ScopeVar { name: "sv".into(), kind: Kind::Any, assignable: false });
-                self.scope.push(ScopeVar { name: "si".into(), kind: Kind::Any, assignable: false });
+                self.scope.push(ScopeVar { name: "sv".into(), kind: Kind::Any, assignable: false, no_path: false });
+                self.scope.push(ScopeVar { name: "si".into(), kind: Kind::Any, assignable: false, no_path: false });
                 let inner = vec![Node::Text(self.text_parts())];
                 self.scope.pop();
                 self.scope.pop();
@@ -754,8 +831,8 @@ impl<'a> Ctx<'a> {
                 let items = if self.r.chance(0.7) { id("list") } else { id("l2") };
                 attrs.push(Attr { name: "items".into(), val: AttrVal::Bind(items) });
                 attrs.push(Attr { name: "p".into(), val: AttrVal::Bind(self.top_expr()) });
-                self.scope.push(ScopeVar { name: "sv".into(), kind: Kind::Any, assignable: false });
-                self.scope.push(ScopeVar { name: "si".into(), kind: Kind::Index, assignable: false });
+                self.scope.push(ScopeVar { name: "sv".into(), kind: Kind::Any, assignable: false, no_path: false });
+                self.scope.push(ScopeVar { name: "si".into(), kind: Kind::Index, assignable: false, no_path: false });
                 let inner = vec![Node::Text(self.text_parts())];
                 self.scope.pop();
                 self.scope.pop();
@@ -988,6 +1065,7 @@ pub fn catalogue_file(kind: &str) -> TFile {
         "mchild" => "<text>V:{{val}}</text>",
         "dyn" => "<text>D:{{p}}</text><block wx:for=\"{{items}}\" wx:key=\"k\"><slot sv=\"{{item}}\" si=\"{{index}}\"/></block>",
         "dynnk" => "<text>E:{{p}}</text><block wx:for=\"{{items}}\"><slot sv=\"{{item}}\" si=\"{{index}}\"/></block>",
+        "dynn" => "<text>N:{{p}}</text><view id=\"na\"><slot name=\"a\" sv=\"{{p}}\"/></view><view id=\"nb\"><slot name=\"b\" sv=\"{{p}}\"/></view><slot sv=\"{{p}}\"/>",
         "dynt" => "<template name=\"row\"><text>R:{{x}}:{{v}}</text><slot sv=\"{{x || v || p}}\" si=\"{{k}}\"/></template><text>T:{{p.k}}</text><template is=\"row\" data=\"{{...p}}\"/>",
         _ => "",
     };
@@ -1001,13 +1079,14 @@ pub fn catalogue_component(kind: &str) -> Value {
         "mchild" => json!({"is": "mchild", "path": "comp/mchild", "properties": {"val": {"type": "any", "value": null}, "nval": {"type": "any", "value": null}}}),
         "dyn" => json!({"is": "dyn", "path": "comp/dyn", "options": {"dynamicSlots": true}, "properties": {"items": {"type": "any", "value": []}, "p": {"type": "any", "value": null}}}),
         "dynnk" => json!({"is": "dynnk", "path": "comp/dynnk", "options": {"dynamicSlots": true}, "properties": {"items": {"type": "any", "value": []}, "p": {"type": "any", "value": null}}}),
+        "dynn" => json!({"is": "dynn", "path": "comp/dynn", "options": {"dynamicSlots": true}, "properties": {"p": {"type": "any", "value": null}}}),
         "dynt" => json!({"is": "dynt", "path": "comp/dynt", "options": {"dynamicSlots": true}, "properties": {"p": {"type": "any", "value": null}}}),
         _ => json!({}),
     }
 }
 
-const WXS_INLINE: &str = "exports.j = function(a){ return JSON.stringify(a) }; exports.j.__id = '@PATH@#m:j'; exports.f = function(a){ return 'f(' + a + ')' }; exports.f.__id = '@PATH@#m:f'; exports.o = { g: function(a){ return 'g' } }; exports.o.g.__id = '@PATH@#m:o.g'; exports.k = 7";
-const WXS_EXT: &str = "exports.j = function(a){ return JSON.stringify(a) }; exports.j.__id = 'utils/s:j'; exports.f = function(a){ return 's(' + a + ')' }; exports.f.__id = 'utils/s:f'; exports.o = { g: function(a){ return 'sg' } }; exports.o.g.__id = 'utils/s:o.g'; exports.k = 9";
+const WXS_INLINE: &str = "exports.j = function(a){ return JSON.stringify(a) }; exports.j.__id = '@PATH@#m:j'; exports.f = function(a){ return 'f(' + a + ')' }; exports.f.__id = '@PATH@#m:f'; exports.o = { g: function(a){ return 'g' } }; exports.o.g.__id = '@PATH@#m:o.g'; exports.k = 7; exports.rows = [{k: 1, v: 'r1', w: 'w1', sub: [{k: 11, v: 's1'}], h: function(){ return 'h0' }}, {k: 2, v: 'r2', w: 'w2', sub: [], h: function(){ return 'h1' }}]; exports.rows[0].h.__id = '@PATH@#m:rows.0.h'; exports.rows[1].h.__id = '@PATH@#m:rows.1.h'";
+const WXS_EXT: &str = "exports.j = function(a){ return JSON.stringify(a) }; exports.j.__id = 'utils/s:j'; exports.f = function(a){ return 's(' + a + ')' }; exports.f.__id = 'utils/s:f'; exports.o = { g: function(a){ return 'sg' } }; exports.o.g.__id = 'utils/s:o.g'; exports.k = 9; exports.rows = [{k: 1, v: 'e1', w: 'x1', sub: [{k: 11, v: 't1'}], h: function(){ return 'h0' }}, {k: 2, v: 'e2', w: 'x2', sub: [], h: function(){ return 'h1' }}]; exports.rows[0].h.__id = 'utils/s:rows.0.h'; exports.rows[1].h.__id = 'utils/s:rows.1.h'";
 
 // ---------------------------------------------------------------------------------------------
 
@@ -1036,6 +1115,7 @@ pub fn generate_with(seed: u64, prop: Prop, deep: bool) -> World {
         dyn_slots: rc.chance(0.4),
         root_slots: rc.chance(0.25),
         dup_keys: rc.chance(0.15),
+        script_lists: rc.chance(0.3),
         model: rc.chance(if prop == Prop::C11 { 0.95 } else { 0.5 }),
         events: rc.chance(0.5),
         type_flip: rc.chance(0.3),
